@@ -25,10 +25,10 @@ import (
 // C12 – tokenization always progresses, tiles the input and tracks lines.
 
 type ltok struct {
-	eoi        bool
-	name       string
-	s, e       int
-	line, col  int
+	eoi       bool
+	name      string
+	s, e      int
+	line, col int
 }
 
 type lexerUnderTest struct {
@@ -262,10 +262,10 @@ var hostileAlphabet = []string{"a", "b", "Z", "0", "9", "_", " ", " ", "\n", "\n
 	"é", "я", "😀", "\u2028", "\xff", "\xc3", "\xe2\x82", bom, "\x00", "/*", "*/", "//", "<!--", "-->", "${", "%%", "::", "->", "0x", "1e", "\\u", "\\u{", ",.", ";.", ",..", ";..", " \n.", "\n\n..", "\n\n...", "\n=", "\n\n=>", ".-", ":-", ":--"}
 
 var fragmentPool = map[string][]string{
-	"tm": {"language x(go);", ":: lexer", ":: parser", "id: /[a-z]+/ (class)", "'if': /if/", "space: /[ \\t]+/ (space)", "%input a, b no-eoi;", "a -> A: b? (c | d)+ ;", "{ $$ = $1 }", "{ if (x) { y(\"}\") } }", "# comment\n", "/* c */", "%left '+' '-';", "set(first A & ~B)", "(?= A & !B)", "'\\''", "\"str\\\"ing\"", "/re\\/gex[/]/", "<flag X = true>", "[A && !B]", "%%\n{{ template }}"},
-	"js": {"var x = 1;", "let y = `a${b}c`;", "x = a / b / c;", "r = /ab+c/gi;", "if (a) { b() } else c", "// line\n", "/* block */", "'str\\'ing'", "\"s\"", "0x1F", "1.5e-3", "1n", "a?.b ?? c", "class A extends B { #p = 1 }", "<div a='b'>{x}</div>", "x => x*2", "a\n++b", "<!-- html comment\n", "--> also\n", "`unterminated ${", "\\u0061bc", "async function* f() {}", "a <b> c", "type T = A<B<C>>;"},
-	"json": {"{", "}", "[", "]", ":", ",", "\"str\"", "\"\\u00e9\\n\"", "123", "-1.5e+10", "true", "false", "null", "/* c */", "abc", "A", "B", "\"unterminated", "/* open"},
-	"test": {"test", "{", "}", "(", ")", "[", "]", "decl1", "decl2", "eval", "as", "if", "else", "idt", "-", "->", ".", "...", ",", ":", "+", "*", "\\u0041bc", "'a'", "'\\''", "\"<a,b>\"", "<x>", "123", "0", "077", "// c\n", "/* multi\nline */", "/* open", "\\", "!", "#", "Z", "zzz", "/re/"},
+	"tm":     {"language x(go);", ":: lexer", ":: parser", "id: /[a-z]+/ (class)", "'if': /if/", "space: /[ \\t]+/ (space)", "%input a, b no-eoi;", "a -> A: b? (c | d)+ ;", "{ $$ = $1 }", "{ if (x) { y(\"}\") } }", "# comment\n", "/* c */", "%left '+' '-';", "set(first A & ~B)", "(?= A & !B)", "'\\''", "\"str\\\"ing\"", "/re\\/gex[/]/", "<flag X = true>", "[A && !B]", "%%\n{{ template }}"},
+	"js":     {"var x = 1;", "let y = `a${b}c`;", "x = a / b / c;", "r = /ab+c/gi;", "if (a) { b() } else c", "// line\n", "/* block */", "'str\\'ing'", "\"s\"", "0x1F", "1.5e-3", "1n", "a?.b ?? c", "class A extends B { #p = 1 }", "<div a='b'>{x}</div>", "x => x*2", "a\n++b", "<!-- html comment\n", "--> also\n", "`unterminated ${", "\\u0061bc", "async function* f() {}", "a <b> c", "type T = A<B<C>>;"},
+	"json":   {"{", "}", "[", "]", ":", ",", "\"str\"", "\"\\u00e9\\n\"", "123", "-1.5e+10", "true", "false", "null", "/* c */", "abc", "A", "B", "\"unterminated", "/* open"},
+	"test":   {"test", "{", "}", "(", ")", "[", "]", "decl1", "decl2", "eval", "as", "if", "else", "idt", "-", "->", ".", "...", ",", ":", "+", "*", "\\u0041bc", "'a'", "'\\''", "\"<a,b>\"", "<x>", "123", "0", "077", "// c\n", "/* multi\nline */", "/* open", "\\", "!", "#", "Z", "zzz", "/re/"},
 	"simple": {"simple", "a", "b", "c", "\\abc", "\\é", " ", "\n", "\\", "d"},
 }
 
@@ -629,8 +629,8 @@ func judgeTokensGen(c *fw.Ctx, lname, grammar, text string, toks []ltok, hasLine
 
 func init() {
 	fw.Register(&fw.Check{
-		ID: "C12",
-		Rule: "cases 0..5: one shipped lexer each (tm, js, js in TypescriptJsx dialect, json, test, simple; imported from the tree under test) on batches of texts: assemblies of language fragments, slices of corpus files (shipped grammars, test files) with byte-level mutations (delete/insert hostile fragment/bit flip/duplicate), and strings over a hostile alphabet (BOMs, CR/LF, invalid and truncated UTF-8, NUL, unterminated comments/strings/templates/code blocks); remaining cases: random lexer grammars (pool of 30 rule shapes incl. comments, strings, overlapping operators, Unicode classes, keywords under a (class) rule; options tokenLine/tokenColumn/tokenLineOffset/scanBytes/nonBacktracking/skipByteOrderMark) generated, built and run on the same kind of texts. Oracle per token sequence: EOI within len+2 calls, EOI sticky at [len,len], other tokens non-empty, ordered, non-overlapping, inside the input; every skipped gap (after an optional BOM at 0), lexed on its own by the same lexer, yields EOI only; Line()==1+count(newlines before start), Column()==start-lastNewline (bytes, 1-based). Text counts as non-trivial when it has a newline and more than 4 tokens; distinct by text",
+		ID:          "C12",
+		Rule:        "cases 0..5: one shipped lexer each (tm, js, js in TypescriptJsx dialect, json, test, simple; imported from the tree under test) on batches of texts: assemblies of language fragments, slices of corpus files (shipped grammars, test files) with byte-level mutations (delete/insert hostile fragment/bit flip/duplicate), and strings over a hostile alphabet (BOMs, CR/LF, invalid and truncated UTF-8, NUL, unterminated comments/strings/templates/code blocks); remaining cases: random lexer grammars (pool of 30 rule shapes incl. comments, strings, overlapping operators, Unicode classes, keywords under a (class) rule; options tokenLine/tokenColumn/tokenLineOffset/scanBytes/nonBacktracking/skipByteOrderMark) generated, built and run on the same kind of texts. Oracle per token sequence: EOI within len+2 calls, EOI sticky at [len,len], other tokens non-empty, ordered, non-overlapping, inside the input; every skipped gap (after an optional BOM at 0), lexed on its own by the same lexer, yields EOI only; Line()==1+count(newlines before start), Column()==start-lastNewline (bytes, 1-based). Text counts as non-trivial when it has a newline and more than 4 tokens; distinct by text",
 		Assumptions: []string{"a skipped gap is judged by re-lexing it from the initial lexer state; lexers whose space rules depend on the lexer state could in principle be misjudged (none of the shipped ones is so far)"},
 		Cases: func(tier string) int {
 			if tier == "thorough" {
